@@ -102,6 +102,8 @@ func cat(bs ...[]byte) []byte {
 	}
 	return out
 }
+func lenPref2(t0, t1 byte, p []byte) []byte { return cat([]byte{t0, t1}, vi(uint64(len(p))), p) }
+
 func lenPref(tag byte, p []byte) []byte { return cat([]byte{tag}, vi(uint64(len(p))), p) }
 
 func alphabet(thorough bool) []sym {
@@ -138,6 +140,13 @@ func alphabet(thorough bool) []sym {
 	add("item-two-messages(ext1:f1=1+f2=2)", cat([]byte{0x0b, 0x10}, vi(1000), lenPref(0x1a, p1), lenPref(0x1a, p2), []byte{0x0c}))
 	add("item-two-messages-id-between(ext1:f1=1+f1=5)", cat([]byte{0x0b}, lenPref(0x1a, p1), []byte{0x10}, vi(1000), lenPref(0x1a, p5), []byte{0x0c}))
 	add("item-two-messages(unk5000:a+b)", cat([]byte{0x0b, 0x10}, vi(5000), lenPref(0x1a, []byte("a")), lenPref(0x1a, []byte("b")), []byte{0x0c}))
+	// several message fields in one item whose combined length crosses the one-byte length prefix
+	long := func(n int) []byte { return lenPref2(0xa2, 0x06, bytes.Repeat([]byte{'x'}, n)) } // unknown bytes field 100
+	for _, id := range []uint64{1000, 5000} {
+		for _, ln := range [][2]int{{60, 60}, {100, 100}, {124, 1}, {130, 5}} {
+			add(fmt.Sprintf("item-two-long-messages(%d:%d+%d)", id, ln[0], ln[1]), cat([]byte{0x0b, 0x10}, vi(id), lenPref(0x1a, long(ln[0])), lenPref(0x1a, long(ln[1])), []byte{0x0c}))
+		}
+	}
 	add("item-two-ids(1001 then 1000:f1=1)", cat([]byte{0x0b, 0x10}, vi(1001), []byte{0x10}, vi(1000), lenPref(0x1a, p1), []byte{0x0c}))
 	add("item-no-id(f1=1)", cat([]byte{0x0b}, lenPref(0x1a, p1), []byte{0x0c}))
 	add("item-no-message(ext1)", cat([]byte{0x0b, 0x10}, vi(1000), []byte{0x0c}))
@@ -485,7 +494,7 @@ func checkContent(c *core.Ctx, f flavor, ct content) {
 }
 
 func run(c *core.Ctx) {
-	c.Rule = "MessageSet (protolegacy build). Reference = an item-grammar parser built on the reference wire splitter: Item = group 1; type_id = last varint field 2; message = concatenation of bytes fields 3; other fields in an item ignored. (a) EVERY sequence of <=k symbols (quick k=2, thorough k=3) from an alphabet of item encodings (4 known extensions incl. a required one and number 2^29, unknown ids in and below the extension range and MaxInt32, payloads: empty / valid / non-minimal / unknown fields / wrong wire type / truncated; field orders id-first, message-first, id between two message fields, two message fields, two ids, no id, no message, extra fields, nested group, non-minimal id and length; malformed items; non-item top-level fields) is decoded by the open, hybrid and opaque generated types and dynamicpb, directly and nested in MessageSetContainer, with default / AllowPartial options (DiscardUnknown is checked under C09): verdict = (well-formed AND every known payload parses AND (partial OR required present)); decoded content = reference message built item-wise with ordinary Merge-Unmarshal of each payload, unknown items preserved in order; Size == len(Marshal) both before any access (lazy extension bytes) and after; deterministic encoding == canonical item sequence (extensions ascending, then unknown items); re-encoding denotes the same content; Unmarshal(Marshal(m)) == m. Invalid type ids (0, >MaxInt32) only must not panic; inputs with id-less items or non-item fields are only required to round trip. (b) EVERY content in the product {ext1: absent/4 values} x {ext2: absent/2} x {required ext: absent/missing/present} x {large-number ext: absent/2} x {4 unknown-item lists} built through reflection: Size, canonical bytes, one item per extension, round trip, container nesting. The whole check is repeated in the protolegacy,protoreflect build (reflection path for generated types) as a child process"
+	c.Rule = "MessageSet (protolegacy build). Reference = an item-grammar parser built on the reference wire splitter: Item = group 1; type_id = last varint field 2; message = concatenation of bytes fields 3; other fields in an item ignored. (a) EVERY sequence of <=k symbols (quick k=2, thorough k=3) from an alphabet of item encodings (4 known extensions incl. a required one and number 2^29, unknown ids in and below the extension range and MaxInt32, payloads: empty / valid / non-minimal / unknown fields / wrong wire type / truncated; field orders id-first, message-first, id between two message fields, two message fields (short, and long ones whose combined length crosses 127/128), two ids, no id, no message, extra fields, nested group, non-minimal id and length; malformed items; non-item top-level fields) is decoded by the open, hybrid and opaque generated types and dynamicpb, directly and nested in MessageSetContainer, with default / AllowPartial options (DiscardUnknown is checked under C09): verdict = (well-formed AND every known payload parses AND (partial OR required present)); decoded content = reference message built item-wise with ordinary Merge-Unmarshal of each payload, unknown items preserved in order; Size == len(Marshal) both before any access (lazy extension bytes) and after; deterministic encoding == canonical item sequence (extensions ascending, then unknown items); re-encoding denotes the same content; Unmarshal(Marshal(m)) == m. Invalid type ids (0, >MaxInt32) only must not panic; inputs with id-less items or non-item fields are only required to round trip. (b) EVERY content in the product {ext1: absent/4 values} x {ext2: absent/2} x {required ext: absent/missing/present} x {large-number ext: absent/2} x {4 unknown-item lists} built through reflection: Size, canonical bytes, one item per extension, round trip, container nesting. The whole check is repeated in the protolegacy,protoreflect build (reflection path for generated types) as a child process"
 	c.Exhaustive = true
 	var child *core.Child
 	if !core.IsChild() {
